@@ -35,6 +35,7 @@ def run(ctx):
     _run_main6(ctx)
     _round6(ctx)
     _round7(ctx)
+    _round8(ctx)
 
 
 def _run_main6(ctx):
@@ -198,3 +199,10 @@ def _round7(ctx):
     with ctx.rule('R04.11', 'a request reaches the I/O thread or the call fails: blocking hand-off send (never a dropped request with the caller left waiting); a channel opened after a back-pressure episode is polled (shared with C09, C18)', floor=4) as r:
         A.include(ctx, r, 'c09', 'R09.3', pick=('send',))
         A.include(ctx, r, 'c18', 'R18.2', pick=('flag',))
+
+
+def _round8(ctx):
+    """Rules that are necessary conditions of this property too (found by seeding round 8)."""
+    from rules import arms as A
+    with ctx.rule('R04.12', 'requests are taken from the channel queues again once the backlog is at or below the low-water mark (shared with C18)', floor=1) as r:
+        A.include(ctx, r, 'c18', 'R18.2', pick=('edges',))
